@@ -168,6 +168,37 @@ impl Report {
         }
     }
 
+    /// Like `absorb_explore`, for families of many generated scenarios: counters, violations and machinery errors
+    /// are merged, but no per-scenario entry is written (the caller adds one summary entry for the family).
+    pub fn absorb_explore_compact(&mut self, name: &str, params: &Value, st: &super::sched::ExploreStats, bounds: super::sched::Cost) {
+        self.add_u64("executions", st.executions);
+        self.add_u64("evaluations", st.executions);
+        self.add_u64("states", st.states);
+        self.add_u64("transitions", st.transitions);
+        self.add_u64("traces_validated_against_impl", st.executions);
+        self.add_u64("pruned_revisits", st.pruned);
+        self.add_u64("determinism_selftest_runs", st.selftest_runs);
+        let md = self.get_u64("max_depth").max(st.max_depth as u64);
+        self.set("max_depth", md);
+        if st.capped {
+            self.set("exhaustive", false);
+        }
+        let prev = self.get_u64("distinct_outcomes");
+        self.set("distinct_outcomes", prev + st.outcomes.len() as u64);
+        for e in &st.machinery_errors {
+            self.machinery(format!("[{name}] {e}"));
+        }
+        for (sig, v) in &st.violations {
+            self.violation_n(
+                sig,
+                &v.msg,
+                json!({"kind": "schedule", "scenario": name, "params": params, "prefix": v.prefix, "trace": v.trace,
+                       "bounds": {"preempt": bounds.preempt, "fault": bounds.fault, "crash": bounds.crash, "clock": bounds.clock}}),
+                v.count,
+            );
+        }
+    }
+
     /// Write evidence + replays, print the verdict lines, return the process exit code.
     pub fn finish(mut self) -> i32 {
         let root = verif_root();
@@ -255,10 +286,12 @@ impl Report {
             wall,
             epath.display()
         );
-        if !self.machinery_errors.is_empty() {
-            2
-        } else if unknown > 0 {
+        // a violation found is reported as such even when a vacuity guard (or another machinery check) also
+        // fired: guards routinely fire *because* the violation cut executions short
+        if unknown > 0 {
             1
+        } else if !self.machinery_errors.is_empty() {
+            2
         } else {
             0
         }
